@@ -13,7 +13,8 @@ from props import c08
 PROP = "C05"
 MODEL_TARGETS = ["Corr/ReadShow.vo"]
 THEOREMS = ["C05_cut", "C05_bodies", "C05_type_data", "C05_type_other", "C05_type_header", "C05_steering_only_V_W", "C05_steering_W_only_null", "C05_steering_V_not_null", "C05_route_custom_frame",
-            "C05_section_type_current", "C05_route_current", "C05_steering_current"]
+            "C05_section_type_current", "C05_route_current", "C05_steering_current",
+            "C05_others", "C05_views", "C05_read_blocks_congr", "C05_read_uses_steering", "C05_steering_first_pass", "C05_steering_read_frame", "C05_steering_read_blocks", "C05_steer_sec_unfold", "C05_steer_ins_block_unfold", "C05_read_steering_unfold"]
 ASSUMPTIONS = [
     "planted steering items: VERS/WRAP/DLM in ~W, ~C (bound to a data column), ~P and custom sections, NULL in ~V, ~C, ~P and custom "
     "sections, with values that would change the parse if honoured (WRAP YES with an undeclared surplus column, DLM COMMA/TAB on "
